@@ -86,7 +86,7 @@ def obsAcc (o : ActObs) (c : Nat) : Bool := o.subOk.contains c
 the skipped ones, broadcast = the accepted ones -/
 theorem C06_acts_monitors_characterise (k : ActKind) (hk : k.broadcastsRefused = false) (o : ActObs)
     (h1 : submittedOk o = true) (h2 : onlySelectedOk o = true) (h3 : broadcastOk o = true) (h4 : noRefusedBroadcastOk o = true)
-    (hdisj : ∀ c, c ∈ o.subOk → c ∉ o.subRej) (c : Nat) :
+    (c : Nat) :
     ((c ∈ o.subOk ∨ c ∈ o.subRej) ↔ c ∈ (actsOf k o.sel (obsSkip o) (obsAcc o)).submitted) ∧
     (c ∈ o.bcSame ↔ c ∈ (actsOf k o.sel (obsSkip o) (obsAcc o)).broadcast) := by
   simp only [submittedOk, List.all_eq_true, Bool.or_eq_true, List.contains_iff_mem] at h1
